@@ -144,7 +144,12 @@ func (w *Decoder) walk(ectx evaluationContext, n *html.Node) {
 		}
 
 		if attrItemscope {
-			if ectx.Global.ResolvedItemscopes[n] == nil {
+			{
+				// An item can be reached more than once: through itemref from several items, or through itemref
+				// after (or before) the document-order walk. Its own statements are produced at the first visit
+				// only, but it is a property value of every item that reaches it.
+				resolvedSubject := ectx.Global.ResolvedItemscopes[n]
+
 				nodeProfile, _ := w.doc.GetNodeMetadata(n)
 
 				var nextContainer encoding.ContainerResource
@@ -170,7 +175,11 @@ func (w *Decoder) walk(ectx evaluationContext, n *html.Node) {
 						}
 					}
 				} else {
-					nextSubject = ectx.Global.BlankNodeFactory.NewBlankNode()
+					if resolvedSubject != nil {
+						nextSubject = resolvedSubject
+					} else {
+						nextSubject = ectx.Global.BlankNodeFactory.NewBlankNode()
+					}
 
 					if w.captureOffsets {
 						if nodeProfile.EndTagTokenOffsets != nil {
@@ -213,6 +222,10 @@ func (w *Decoder) walk(ectx evaluationContext, n *html.Node) {
 							})
 						})
 					}
+				}
+
+				if resolvedSubject != nil {
+					return
 				}
 
 				var nextItemtypes []string
